@@ -24,6 +24,10 @@
 (*               of no list, so the first message always notifies)         *)
 (*   sincePub[n] ticks since the publish ticker last fired (or since       *)
 (*               Ready created it)                                         *)
+(* Ghost:                                                                  *)
+(*   quiet       ticks since the last membership event anywhere            *)
+(*   age[n]      ticks since n started, left or last failed to publish     *)
+(*               (per-peer deadlines, see PeerForgotten / PeerLearnt)      *)
 (* Channel:                                                                *)
 (*   fl[r][m][k] age of the message of kind k ("R" register, "U"           *)
 (*               unregister) from m still in flight to subscriber r, or -1 *)
@@ -47,6 +51,17 @@
 (*     node's publishes fail its entries may run out everywhere (its own    *)
 (*     list included), so the settle time of the convergence invariants is  *)
 (*     counted from the last Start/Stop/Crash/failed publish.               *)
+(*   - Boot: the history may start from a running cluster (the nodes of Boot  *)
+(*     up and mutually known, see Init) so that the bounded number of        *)
+(*     membership events is spent on MIXED histories: a silent crash, clean  *)
+(*     unregisters (several in a row: a rolling restart), joins and restarts *)
+(*     of DIFFERENT peers inside one timeout window.  CrashSet / StopSet     *)
+(*     restrict who may crash / stop gracefully (roles: the state space of   *)
+(*     three or four nodes is otherwise too large to replay).                *)
+(*   - Sync = TRUE (four-id rolling restart only): a node publishes only     *)
+(*     when nothing is in flight, i.e. the handling of one heartbeat by all  *)
+(*     receivers - still in any order - is not interleaved with the next     *)
+(*     heartbeat.  A sub-environment of D = 0.                               *)
 (*   Extra: C18 only needs a live node to publish OFTEN ENOUGH.  "none": a    *)
 (*     register is published exactly when the refresh ticker fires (what the *)
 (*     code does).  "start": Start may also publish one at once (an eager    *)
@@ -81,11 +96,15 @@ CONSTANTS Addr,       \* record: instance id -> address token
           TrackQuiet, \* TRUE: count the ticks since the last membership event (needed by the
                       \*   timed invariants; FALSE in the replayed graphs, where it would only
                       \*   multiply the states: the same bounds are model-checked with TRUE)
-          UnitMs      \* milliseconds per tick (passed to the harness)
+          UnitMs,     \* milliseconds per tick (passed to the harness)
+          Boot,       \* nodes that are up and mutually known when the history starts (see Init)
+          CrashSet,   \* nodes that may crash
+          StopSet,    \* nodes that may stop gracefully
+          Sync        \* TRUE: a node publishes only when nothing is in flight (see above)
 
-VARIABLES status, ent, hashed, hashIds, sincePub, fl, quiet, events, fails, slow, fired, act
+VARIABLES status, ent, hashed, hashIds, sincePub, fl, quiet, age, events, fails, slow, fired, act
 
-vars == <<status, ent, hashed, hashIds, sincePub, fl, quiet, events, fails, slow, fired, act>>
+vars == <<status, ent, hashed, hashIds, sincePub, fl, quiet, age, events, fails, slow, fired, act>>
 
 Nodes == DOMAIN Addr
 Kinds == {"R", "U"}
@@ -95,11 +114,14 @@ Rlo == SetMin(UNION {Gaps[n] : n \in Nodes})
 Rhi == SetMax(UNION {Gaps[n] : n \in Nodes})
 Gone == IF Closed THEN -1 ELSE 0           \* "no visible entry"
 Bound == T + Rhi + D                       \* the C18 convergence bound
+AgeCap == T + D + 1                        \* the per-node clocks stop counting here
 
 ASSUME /\ DOMAIN Gaps = Nodes
        /\ \A n \in Nodes : Gaps[n] # {} /\ Gaps[n] \subseteq 1 .. T
        /\ D >= 0 /\ D < Rlo                \* at most one R per (sender, receiver) in flight
        /\ IF Closed THEN Rhi + D <= T ELSE Rhi + D < T
+       /\ Boot \subseteq Nodes /\ CrashSet \subseteq Nodes /\ StopSet \subseteq Nodes
+       /\ \A n, m \in Boot : Addr[n] = Addr[m] => n = m
 
 Up == {n \in Nodes : status[n] = "up"}
 Vis(n) == {m \in Nodes : ent[n][m] > Gone}  \* ids p.peers lists at node n now
@@ -117,20 +139,25 @@ Abs == [ status     |-> status,
          offSet     |-> {n \in Nodes : slow[n]},   \* nodes whose requested refresh period is longer than Rhi
          cbSet      |-> IF ObserveCb THEN fired ELSE {} ]
 Hid == [ ent |-> ent, hashed |-> hashed, hashIds |-> hashIds, sincePub |-> sincePub,
-         fl |-> fl, quiet |-> quiet, events |-> events, fails |-> fails, slow |-> slow, fired |-> fired ]
+         fl |-> fl, quiet |-> quiet, age |-> age, events |-> events, fails |-> fails, slow |-> slow, fired |-> fired ]
 
 \* node n publishes a register to the subscribers in S, on top of the channel content f
 SendR(f, n, S) == [r \in Nodes |-> IF r \in S /\ f[r][n]["R"] < 0 THEN [f[r] EXCEPT ![n]["R"] = 0] ELSE f[r]]
 NoEnt == [m \in Nodes |-> Gone]
 NoMsg == [m \in Nodes |-> [k \in Kinds |-> -1]]
 
-Init == /\ status = [n \in Nodes |-> "new"]
-        /\ ent = [n \in Nodes |-> NoEnt]
-        /\ hashed = [n \in Nodes |-> FALSE]
-        /\ hashIds = [n \in Nodes |-> {}]
+\* The history starts with the nodes of Boot running and knowing each other: they were
+\* started one after the other, then each one's ticker fired once and its register was
+\* handled by everybody, all at the same instant (the harness performs exactly this
+\* sequence on the real objects).  Boot = {} is the empty cluster.
+Init == /\ status = [n \in Nodes |-> IF n \in Boot THEN "up" ELSE "new"]
+        /\ ent = [n \in Nodes |-> IF n \in Boot THEN [m \in Nodes |-> IF m \in Boot THEN T ELSE Gone] ELSE NoEnt]
+        /\ hashed = [n \in Nodes |-> n \in Boot]
+        /\ hashIds = [n \in Nodes |-> IF n \in Boot THEN Boot ELSE {}]
         /\ sincePub = [n \in Nodes |-> 0]
         /\ fl = [n \in Nodes |-> NoMsg]
         /\ quiet = 0
+        /\ age = [n \in Nodes |-> 0]
         /\ events = 0
         /\ fails = 0
         /\ slow = [n \in Nodes |-> FALSE]
@@ -147,6 +174,7 @@ Start(n) ==
   /\ ent' = [ent EXCEPT ![n] = [NoEnt EXCEPT ![n] = T]]
   /\ sincePub' = [sincePub EXCEPT ![n] = 0]
   /\ quiet' = 0
+  /\ age' = [age EXCEPT ![n] = 0]
   /\ events' = events + 1
   /\ fired' = {}
   /\ \E eager \in (IF Extra = "none" THEN {FALSE} ELSE BOOLEAN) :
@@ -155,6 +183,7 @@ Start(n) ==
   /\ act' = [name |-> "Start", n |-> n]
 
 TickerMayFire(n) == /\ status[n] = "up"
+                    /\ Sync => InFlight = {}
                     /\ \/ sincePub[n] \in Gaps[n]
                        \/ slow[n] /\ sincePub[n] >= Rlo
 
@@ -165,6 +194,7 @@ PublishTick(n) ==
   /\ sincePub' = [sincePub EXCEPT ![n] = 0]
   /\ slow' = [slow EXCEPT ![n] = FALSE]           \* recovered: the period is back in the envelope
   /\ quiet' = IF slow[n] THEN 0 ELSE quiet
+  /\ age' = IF slow[n] THEN [age EXCEPT ![n] = 0] ELSE age
   /\ fired' = {}
   /\ UNCHANGED <<status, ent, hashed, hashIds, events, fails>>
   /\ act' = [name |-> "PublishTick", n |-> n]
@@ -177,6 +207,7 @@ PublishFail(n) ==
   /\ sincePub' = [sincePub EXCEPT ![n] = 0]
   /\ \E b \in (IF Backoff THEN BOOLEAN ELSE {FALSE}) : slow' = [slow EXCEPT ![n] = slow[n] \/ b]
   /\ quiet' = 0
+  /\ age' = [age EXCEPT ![n] = 0]
   /\ fired' = {}
   /\ UNCHANGED <<status, ent, hashed, hashIds, fl, events>>
   /\ act' = [name |-> "PublishFail", n |-> n]
@@ -192,7 +223,7 @@ Deliver(r, m, k) ==
      IN /\ hashed' = [hashed EXCEPT ![r] = TRUE]
         /\ hashIds' = [hashIds EXCEPT ![r] = ids]
         /\ fired' = IF changed THEN {r} ELSE {}
-  /\ UNCHANGED <<status, sincePub, quiet, events, fails, slow>>
+  /\ UNCHANGED <<status, sincePub, quiet, age, events, fails, slow>>
   /\ act' = [name |-> "Deliver", to |-> r, from |-> m, kind |-> k]
 
 \* the process is gone: its state is no longer observed, nothing reaches it any more
@@ -204,12 +235,13 @@ Leave(n, how) ==
   /\ sincePub' = [sincePub EXCEPT ![n] = 0]
   /\ slow' = [slow EXCEPT ![n] = FALSE]
   /\ quiet' = 0
+  /\ age' = [age EXCEPT ![n] = 0]
   /\ events' = events + 1
   /\ fired' = {}
 
 \* close(Done): the goroutine publishes U<address>,<id> and returns
 GracefulStop(n) ==
-  /\ status[n] = "up"
+  /\ status[n] = "up" /\ n \in StopSet
   /\ events < MaxEvents
   /\ Leave(n, "stopped")
   /\ fl' = [r \in Nodes |-> IF r = n THEN NoMsg
@@ -219,7 +251,7 @@ GracefulStop(n) ==
 
 \* the same, but the Publish of the unregister fails: the others only forget n by expiry
 GracefulStopFail(n) ==
-  /\ status[n] = "up"
+  /\ status[n] = "up" /\ n \in StopSet
   /\ events < MaxEvents
   /\ fails < MaxFails
   /\ Leave(n, "stopped")
@@ -229,7 +261,7 @@ GracefulStopFail(n) ==
 
 \* the process dies: no unregister; what it published before is still delivered to the others
 Crash(n) ==
-  /\ status[n] = "up"
+  /\ status[n] = "up" /\ n \in CrashSet
   /\ events < MaxEvents
   /\ Leave(n, "crashed")
   /\ fl' = [fl EXCEPT ![n] = NoMsg]
@@ -245,6 +277,7 @@ Advance ==
   /\ fl' = [r \in Nodes |-> [m \in Nodes |-> [k \in Kinds |-> IF fl[r][m][k] >= 0 THEN fl[r][m][k] + 1 ELSE -1]]]
   /\ sincePub' = [n \in Nodes |-> IF status[n] = "up" THEN (IF sincePub[n] < Rhi THEN sincePub[n] + 1 ELSE Rhi) ELSE 0]
   /\ quiet' = IF TrackQuiet /\ quiet < Bound /\ (\A n \in Up : ~slow[n]) THEN quiet + 1 ELSE quiet  \* settling starts at recovery
+  /\ age' = [n \in Nodes |-> IF TrackQuiet /\ status[n] # "new" /\ age[n] < AgeCap /\ ~slow[n] THEN age[n] + 1 ELSE age[n]]
   /\ fired' = {}
   /\ UNCHANGED <<status, hashed, hashIds, events, fails, slow>>
   /\ act' = [name |-> "Advance"]
@@ -268,6 +301,7 @@ TypeOK == /\ status \in [Nodes -> {"new", "up", "stopped", "crashed"}]
           /\ sincePub \in [Nodes -> 0 .. Rhi]
           /\ fl \in [Nodes -> [Nodes -> [Kinds -> -1 .. D]]]
           /\ quiet \in 0 .. Bound
+          /\ age \in [Nodes -> 0 .. AgeCap]
           /\ events \in 0 .. MaxEvents
           /\ fails \in 0 .. MaxFails
           /\ slow \in [Nodes -> BOOLEAN]
@@ -281,6 +315,14 @@ Converged == quiet >= Bound => Agreed
 \* the two halves, with the tighter bounds the protocol actually gives
 LearnsLive == quiet >= Rhi + D + 1 => \A n \in Up : Up \subseteq Vis(n)
 ForgetsDead == quiet >= T + D + 1 => \A n \in Up : Vis(n) \subseteq Up
+\* The same PER PEER, whatever else goes on in the cluster meanwhile (other nodes joining,
+\* stopping, crashing, restarting - a rolling restart never lets `quiet' reach a bound):
+\* age[m] counts the ticks since m started, left or last failed to publish.
+\* A peer that left - with or without an unregister - is listed by nobody from the instant
+\* timeout + delay after it left; a peer that is up and publishing is listed by every node
+\* that has been up for a refresh interval + delay.
+PeerForgotten == \A m \in Nodes : (status[m] \in {"stopped", "crashed"} /\ age[m] >= T + D + 1) => \A n \in Up : m \notin Vis(n)
+PeerLearnt == \A n \in Up, m \in Up : (age[n] >= Rhi + D + 1 /\ age[m] >= Rhi + D + 1) => m \in Vis(n)
 \* a running node always lists itself, so GetPeers never needs its fallback
 SelfListed == fails = 0 => \A n \in Up : n \in Vis(n)
 \* after recovery nobody is left with a stretched refresh period
@@ -306,10 +348,10 @@ EventuallyAgreed == <>[]Agreed
 HashCatchesUp == \A n \in Nodes : [](status[n] = "up" => <>(status[n] # "up" \/ (hashed[n] /\ hashIds[n] = Vis(n))))
 
 Params == [addr |-> Addr, gaps |-> Gaps, T |-> T, D |-> D, rlo |-> Rlo, rhi |-> Rhi, unitMs |-> UnitMs,
-           closed |-> Closed, observeCb |-> ObserveCb, backoff |-> Backoff, extra |-> Extra]
+           closed |-> Closed, observeCb |-> ObserveCb, backoff |-> Backoff, extra |-> Extra, bootSet |-> Boot]
 ASSUME PrintT(ToJson([params |-> Params]))
 Dump == PrintT(ToJson([fa |-> act.name, act |-> act', fabs |-> Abs, fhid |-> Hid, tabs |-> Abs', thid |-> Hid']))
-View == <<status, ent, hashed, hashIds, sincePub, fl, quiet, events, fails, slow, fired>>
+View == <<status, ent, hashed, hashIds, sincePub, fl, quiet, age, events, fails, slow, fired>>
 
 \* constant values for the configurations
 Addr1 == [a1 |-> "A"]
@@ -323,4 +365,14 @@ GapsFixed3 == [a1 |-> {3}, b1 |-> {4}, c1 |-> {3}]
 GapsJitter3 == [a1 |-> {3, 4}, b1 |-> {3, 4}, c1 |-> {3, 4}]
 GapsRestart == [a1 |-> {3}, a2 |-> {4}, b1 |-> {3, 4}]
 GapsRestartF == [a1 |-> {3}, a2 |-> {3}, b1 |-> {4}]
+AddrRoll == [a1 |-> "A", b1 |-> "B", b2 |-> "B", c1 |-> "C"]
+GapsRoll == [a1 |-> {3}, b1 |-> {4}, b2 |-> {4}, c1 |-> {4}]
+GapsRoll4 == [a1 |-> {4}, b1 |-> {4}, b2 |-> {4}, c1 |-> {4}]
+NoNodes == {}
+AllNodes == Nodes
+OnlyB == {"b1"}
+OnlyC == {"c1"}
+BootABC == {"a1", "b1", "c1"}
+SetB == {"b1", "b2"}
+SetBC == {"b1", "c1"}
 =============================================================================
